@@ -418,7 +418,7 @@ _ROUND6 = {
     "C15": "Also: listener lists written with blanks around the separators (every accepted listener address can be bound as it stands); a properties file from a URL whose download breaks off mid-body must not be accepted.",
     "C16": "Also: the pipeline histories incl. in-place re-registrations; two gRPC listeners (grpc and grpcs, either order) started by startServers with a plain and a TLS backend.",
     "C17": "Also: the upstream's own Vary / Cache-Control survive; an upstream that dies mid-body (compressed or not) never yields a complete response; going-away clients hit compressed responses; the recorder reports headers as committed.",
-    "C18": "Also: real SIGTERM/SIGINT (optionally after SIGHUP) to a process with 1-4 exit handlers one of which is main.go's drain: every handler runs once, exit.Wait returns within the wait, the listener refuses afterwards.",
+    "C18": "Also: real SIGTERM/SIGINT (optionally after SIGHUP) to a process with 1-4 exit handlers one of which is main.go's drain: every handler runs once, exit.Wait returns within the wait, the listener refuses afterwards; real binary with an https+tcp+sni / https listener that was left without file descriptors for a moment (prlimit) before the shutdown: a request in flight on a connection accepted earlier completes.",
     "C19": "Also: a header in time followed by a body that streams 2.5-3.5 times the limit is delivered completely; limits given through the environment next to unusable neighbour settings (Load refuses, or keeps the limits).",
     "C20": "Also: $request_url / $request_scheme on routes that replace the Host header and with client-sent X-Forwarded-Proto / Forwarded; a websocket upgrade whose upstream refuses or closes yields exactly one line.",
 }
